@@ -452,6 +452,9 @@ func (c *Ctx) callBySpec(spec *FuncSpec, fn *types.Func, x *ast.CallExpr, st *St
 	}
 	env = &SpecEnv{c: c, st: st, entry: pre, binds: binds, results: results, assume: true}
 	for _, en := range spec.Ensures {
+		if !c.content && hasQuant(en.Node) {
+			continue // byte-content clauses are only assumed by units that state something about contents
+		}
 		c.assumeSpec(st.guard, en, env)
 	}
 	c.usedSpecs[specKey(spec.Pkg, spec.Name)] = true
@@ -778,4 +781,22 @@ func (c *Ctx) assumeSpec(guard string, cl *Clause, env *SpecEnv) {
 	t := c.specBool(cl, env)
 	c.noDef = save
 	c.assume(implies(guard, t))
+}
+
+func hasQuant(n SpecNode) bool {
+	switch x := n.(type) {
+	case *QuantNode:
+		return true
+	case *ImplNode:
+		return hasQuant(x.A) || hasQuant(x.B)
+	case *IffNode:
+		return hasQuant(x.A) || hasQuant(x.B)
+	case *AndNode:
+		for _, k := range x.L {
+			if hasQuant(k) {
+				return true
+			}
+		}
+	}
+	return false
 }
